@@ -132,8 +132,41 @@ def handleMulti (j : Json) : Except String Json := do
   pure (Json.mkObj [("results", Json.arr res.toArray),
     ("stores", Json.arr (st.map fun (l, d) => Json.arr #[Json.num (JsonNumber.fromNat l), storeToJson d]).toArray)])
 
+def mlabelOfJson (j : Json) : Except String (MLabel String) := do
+  let a ← j.getArr?
+  if h : a.size ≥ 2 then do
+    let nm ← a[0].getStr?
+    let n ← a[1].getNat?
+    match nm with
+    | "begin" =>
+      if h3 : a.size ≥ 3 then do
+        pure (.begin n (← strsOfJson a[2]))
+      else throw "begin needs texts"
+    | "finish" => pure (.finish n)
+    | _ => throw s!"bad label {nm}"
+  else throw "bad label"
+
+def mreplay (ixs : List (IndexCfg String String String)) :
+    MState String String String → List (MLabel String) → Nat → MState String String String × Option Nat
+  | s, [], _ => (s, none)
+  | s, l :: ls, k =>
+    match mstep ixs s l with
+    | some s' => mreplay ixs s' ls (k + 1)
+    | none => (s, some k)
+
+def handleMReplay (j : Json) : Except String Json := do
+  let ixs ← (← (← j.getObjVal? "indexes").getArr?).toList.mapM indexOfJson
+  let labels ← (← (← j.getObjVal? "labels").getArr?).toList.mapM mlabelOfJson
+  let (s, failed) := mreplay ixs { stores := [], pending := [], returned := [] } labels 0
+  pure (Json.mkObj [
+    ("failed_at", match failed with | some k => Json.num (JsonNumber.fromNat k) | none => .null),
+    ("returned", Json.arr (s.returned.reverse.map fun (i, _, res) =>
+      Json.arr #[Json.num (JsonNumber.fromNat i), Json.arr (res.map optToJson).toArray]).toArray),
+    ("stores", Json.arr (s.stores.map fun (l, d) => Json.arr #[Json.num (JsonNumber.fromNat l), storeToJson d]).toArray)])
+
 def handle (op : String) (j : Json) : Except String Json := do
   if op == "multi" then return (← handleMulti j)
+  if op == "mreplay" then return (← handleMReplay j)
   let cfg ← cfgOfJson (← j.getObjVal? "cfg")
   let g := tableFn (← pairsOfJson (← j.getObjVal? "keys")) "?k:"
   let f := tableFn (← pairsOfJson (← j.getObjVal? "vecs")) "?v:"
